@@ -547,6 +547,7 @@ package ggql
 //@   requires recv != nil
 
 //@ func (*SelBase).Validate
+//@   check accumulate {C10}
 //@   props C03
 //@   check panic {C03}
 //@   requires recv != nil
